@@ -310,7 +310,7 @@ Proof.
   destruct (i_id x =? h); [intro H; injection H as <-; auto|auto].
 Qed.
 
-(* ------------------------------------------------------------------ Instance.Restart: the four outcomes *)
+(* ------------------------------------------------------------------ Instance.Restart: the three outcomes *)
 Lemma restart_body_cases o c s s' ev r :
   restart_body o c s = (s', ev, r) ->
   let h := i_id o in
@@ -328,18 +328,14 @@ Lemma restart_body_cases o c s s' ev r :
       \/
       (ok2 = true /\
        exists e3, stop_inst o (commit (mkInst n (i_root o) c saved) (next_after c n) s) = (s', e3) /\
-         ((existsb cb_fail (c_shutdown co) = true /\ r = RInst false h /\
-           ev = cb_events KRestart h (labels (c_restart co)) ++ e2 ++ e3
-                ++ cb_events KShutdown h (upto_fail (c_shutdown co)) ++ failed)
-          \/
-          (existsb cb_fail (c_shutdown co) = false /\ r = RInst true n /\
-           ev = cb_events KRestart h (labels (c_restart co)) ++ e2 ++ e3
-                ++ cb_events KShutdown h (labels (c_shutdown co)) ++ [EHook HInstanceStartup n]))))).
+         r = RInst true n /\
+         ev = cb_events KRestart h (labels (c_restart co)) ++ e2 ++ e3
+              ++ cb_events KShutdown h (labels (c_shutdown co)) ++ [EHook HInstanceStartup n]))).
 Proof.
   intro H. cbv zeta. unfold restart_body in H. cbv zeta in H.
   destruct (run_stop KRestart (i_id o) (c_restart (i_cfg o))) as [e1 ok1] eqn:E1.
   apply run_stop_split in E1 as [He1 Hok1].
-  rewrite run_all_labels in H.
+  rewrite !run_all_labels in H.
   destruct ok1; simpl in H.
   2:{ left. injection H as <- <- <-. symmetry in Hok1. apply negb_false_iff in Hok1.
       repeat split; auto. rewrite He1. reflexivity. }
@@ -351,14 +347,7 @@ Proof.
   2:{ left. injection H as <- <- <-. repeat split; auto. rewrite He1. reflexivity. }
   right. split; [reflexivity|].
   destruct (stop_inst o (commit (mkInst (next s) (i_root o) c saved) (next_after c (next s)) s)) as [s2 e3] eqn:E3.
-  destruct (run_stop KShutdown (i_id o) (c_shutdown (i_cfg o))) as [e4 ok4] eqn:E4.
-  apply run_stop_split in E4 as [He4 Hok4].
-  exists e3.
-  destruct ok4; simpl in H; injection H as <- <- <-; (split; [reflexivity|]).
-  - right. symmetry in Hok4. apply negb_true_iff in Hok4. rewrite (upto_fail_all _ Hok4) in He4.
-    repeat split; auto. rewrite He1, He4. reflexivity.
-  - left. symmetry in Hok4. apply negb_false_iff in Hok4.
-    repeat split; auto. rewrite He1, He4. reflexivity.
+  exists e3. injection H as <- <- <-. repeat split; auto. rewrite He1. reflexivity.
 Qed.
 
 (* ------------------------------------------------------------------ which callbacks an operation can run *)
@@ -430,7 +419,7 @@ Proof.
     + pose proof (start_plan_shape _ _ _ _ _ _ _ _ P) as Sh.
       assert (forall e3 s2 x, stop_inst o x = (s2, e3) -> ~ In (ECb k j l) e3) as Hstop.
       { intros e3 s2 x Hs Hi. apply stop_inst_events in Hs. apply (forallb_In _ _ _ Hs) in Hi. discriminate. }
-      destruct E as [[_ [_ [_ ->]]] | [_ [e3 [S3 [[_ [_ ->]] | [_ [_ ->]]]]]]];
+      destruct E as [[_ [_ [_ ->]]] | [_ [e3 [S3 [_ ->]]]]];
         repeat (apply in_app_or in Hin as [Hin|Hin]);
         try (apply in_cb_events in Hin as [n [He _]]; injection He as -> -> ->; auto; fail);
         try (destruct (plan_cb_in _ _ _ _ _ _ _ _ _ _ _ Sh Hin) as [-> [[_ D]| ->]]; [discriminate|auto]; fail);
@@ -581,7 +570,7 @@ Proof.
           apply in_cb_events in Hin as [n [He _]]; injection He as -> -> ->; destruct Hk; discriminate.
       * destruct (stop_inst_next _ _ _ _ S3) as [Hn _]. rewrite commit_next in Hn. rewrite Hn.
         split; [apply next_after_le|]. intros k j l Hk Hin.
-        destruct E as [[_ [_ ->]] | [_ [_ ->]]];
+        destruct E as [_ ->];
           repeat (apply in_app_or in Hin as [Hin|Hin]); eauto;
           try (apply in_cb_events in Hin as [n [He _]]; injection He as -> -> ->; destruct Hk; discriminate);
           try (exfalso; eapply Hstop; eauto; fail).
@@ -701,10 +690,9 @@ Proof.
         split; [exact PF0|]. split; [exact PS|]. intros n D. discriminate.
       * pose proof (stop_inst_events _ _ _ _ S3) as Hst.
         destruct (POK eq_refl) as [_ P2].
-        destruct E as [[_ [-> ->]] | [_ [-> ->]]];
+        destruct E as [-> ->];
           unfold cb_events; rewrite !proj_app, !proj_cbs_other by reflexivity;
           rewrite !(proj_stop _ _ _ _ Hst); simpl; rewrite ?proj_hook, !app_nil_r.
-        -- split; [exact PF0|]. split; [exact PS|]. intros n D. discriminate.
         -- split; [exact PF0|]. split; [exact PS|]. intros n D. injection D as <-.
            split; [reflexivity|].
            rewrite !proj_app, !proj_cbs_other by reflexivity.
@@ -836,17 +824,7 @@ Proof.
         -- rewrite existsb_app, accept_cb_events, Ha. reflexivity.
         -- rewrite existsb_app, Hb, startup_cb_cb_events by discriminate. reflexivity.
       * pose proof (stop_inst_events _ _ _ _ S3) as Hst.
-        destruct E as [[_ [_ ->]] | [_ [_ ->]]].
-        -- replace (cb_events KRestart (i_id o) (labels (c_restart (i_cfg o))) ++ (a ++ b) ++ e3 ++
-                    cb_events KShutdown (i_id o) (upto_fail (c_shutdown (i_cfg o))) ++
-                    cb_events KRestartFailed (i_id o) (labels (c_rfailed (i_cfg o))))
-             with ((cb_events KRestart (i_id o) (labels (c_restart (i_cfg o))) ++ a) ++
-                   (b ++ e3 ++ cb_events KShutdown (i_id o) (upto_fail (c_shutdown (i_cfg o))) ++
-                    cb_events KRestartFailed (i_id o) (labels (c_rfailed (i_cfg o)))))
-             by (rewrite <- !app_assoc; reflexivity).
-           apply ordered_segments.
-           ++ rewrite existsb_app, accept_cb_events, Ha. reflexivity.
-           ++ rewrite !existsb_app, Hb, (startup_cb_stop _ _ _ Hst), !startup_cb_cb_events by discriminate. reflexivity.
+        destruct E as [_ ->].
         -- replace (cb_events KRestart (i_id o) (labels (c_restart (i_cfg o))) ++ (a ++ b) ++ e3 ++
                     cb_events KShutdown (i_id o) (labels (c_shutdown (i_cfg o))) ++
                     [EHook HInstanceStartup (next s)])
@@ -879,7 +857,7 @@ Proof.
   apply restart_body_cases in E. cbv zeta in E. simpl in E. rewrite Hid in E.
   destruct E as [[_ [_ [D _]]] | [_ [e2 [ok2 [saved [P E]]]]]]; [discriminate|].
   destruct E as [[_ [_ [D _]]] | [-> [e3 [S3 E]]]]; [discriminate|].
-  destruct E as [[_ [D _]] | [_ [D ->]]]; [discriminate|]. injection D as D. subst n.
+  destruct E as [D ->]. injection D as D. subst n.
   pose proof (start_plan_shape _ _ _ _ _ _ _ _ P) as [hd f su li tl Heq _ _ _ _ _ _ Hli _ _ Hok].
   destruct (Hok eq_refl) as [_ [-> [-> [-> [LL ->]]]]].
   exists o, li, saved, e3. split; [reflexivity|]. split; [reflexivity|]. split; [exact LL|]. split; [exact Hli|].
@@ -907,10 +885,9 @@ Proof.
   - right. right. right. eapply forallb_In; eauto.
 Qed.
 
-Lemma reload_fail_partial s h c s' ev h' o :
+Lemma reload_fail_only_restart_failed s h c s' ev h' o :
   step s (ORestart h c) = (s', ev, RInst false h') ->
   find_inst h (known s) = Some o ->
-  existsb cb_fail (c_shutdown (i_cfg o)) = false ->
   h' = h /\
   insts s' = insts s /\ known s' = known s /\ serving s' = serving s /\ once s' = once s /\
   (forall x, wg s' x = wg s x) /\
@@ -919,7 +896,7 @@ Lemma reload_fail_partial s h c s' ev h' o :
     ev = cb_events KRestart h (upto_fail (c_restart (i_cfg o))) ++ e2
          ++ cb_events KRestartFailed h (labels (c_rfailed (i_cfg o))).
 Proof.
-  simpl. unfold do_restart. intros H F Hsh. rewrite F in H.
+  simpl. unfold do_restart. intros H F. rewrite F in H.
   pose proof (find_inst_id _ _ _ F) as Hid.
   destruct (restart_body o c (set_wg s (wg_add (i_root o) 1 (wg s)))) as [[s1 e1] r1] eqn:E.
   injection H as <- <- ->.
@@ -930,7 +907,7 @@ Proof.
   - destruct E as [[-> [-> [D ->]]] | [_ [e3 [S3 E]]]].
     + injection D as <-. simpl. repeat split; auto; try apply wg_done_add.
       exists e2. split; [eauto|]. rewrite (upto_fail_all _ Hr). reflexivity.
-    + destruct E as [[D _] | [_ [D _]]]; [congruence|discriminate].
+    + destruct E as [D _]. discriminate.
 Qed.
 
 Definition quirk_old : config :=
@@ -939,14 +916,14 @@ Definition quirk_old : config :=
 Definition quirk_new : config :=
   mkCfg false false false [] [mkCb 0 false] [] [] [mkCb 0 false] [] [mkSrv 0 true 1 false].
 
-(* ... but when an OnShutdown callback of the old instance fails, Restart reports failure and runs
-   the restart-failed callbacks although the old servers are stopped, part of the old shutdown
-   callbacks have run, and the new instance is the one that is live and serving *)
-Lemma reload_fail_refuted :
+(* an OnShutdown callback of the old instance that returns an error does not make the reload fail
+   (F-C16-1, repaired): all the old shutdown callbacks run, no restart-failed callback does, the
+   new instance is returned and is the one that is live and serving *)
+Lemma reload_ok_despite_shutdown_error :
   let res := step (final init [OStart quirk_old]) (ORestart 0 quirk_new) in
-  snd res = RInst false 0 /\
+  snd res = RInst true 1 /\
   In (EStop 0 0) (snd (fst res)) /\ In (ECb KShutdown 0 0) (snd (fst res)) /\
-  ~ In (ECb KShutdown 0 1) (snd (fst res)) /\ In (ECb KRestartFailed 0 0) (snd (fst res)) /\
+  In (ECb KShutdown 0 1) (snd (fst res)) /\ ~ In (ECb KRestartFailed 0 0) (snd (fst res)) /\
   In (EServe 1 0) (snd (fst res)) /\
   map i_id (insts (fst (fst res))) = [1].
 Proof.
@@ -1197,7 +1174,7 @@ Proof.
   apply restart_body_cases in E. cbv zeta in E. simpl in E. rewrite Hid in E.
   destruct E as [[_ [_ [D _]]] | [_ [e2 [ok2 [saved [P E]]]]]]; [discriminate|].
   destruct E as [[_ [_ [D _]]] | [-> [e3 [S3 E]]]]; [discriminate|].
-  destruct E as [[_ [D _]] | [_ [D ->]]]; [discriminate|]. injection D as D. subst n.
+  destruct E as [D ->]. injection D as D. subst n.
   exists o, (mkInst (next s) (i_root o) c saved). split; [reflexivity|].
   destruct (stop_inst_next _ _ _ _ S3) as [_ [K _]]. simpl. rewrite K.
   split.
@@ -1432,7 +1409,7 @@ Fixpoint wf_from (s : state) (ops : list op) : Prop :=
   end.
 
 Definition sd_ok (x : inst) (p : list nat) : Prop :=
-  p = [] \/ p = upto_fail (c_shutdown (i_cfg x)) \/ p = labels (c_shutdown (i_cfg x)).
+  p = [] \/ p = labels (c_shutdown (i_cfg x)).
 
 Record sdinv (s : state) (tr : list event) : Prop := mkSd {
   sd_known : forall x, In x (known s) -> sd_ok x (proj KShutdown (i_id x) tr);
@@ -1567,26 +1544,19 @@ Proof.
         simpl in A2, B2, D2. rewrite A2 in A. rewrite B2 in B. rewrite D2 in D.
         assert (Hh : h < next s).
         { destruct G as [G1 _ G3 _]. specialize (G1 o (G3 o Holive)). lia. }
-        assert (PE : exists q, (q = upto_fail (c_shutdown (i_cfg o)) \/ q = labels (c_shutdown (i_cfg o))) /\
-                     forall j, proj KShutdown j e1 = if j =? h then q else []).
-        { destruct E as [[_ [_ ->]] | [_ [_ ->]]].
-          - exists (upto_fail (c_shutdown (i_cfg o))). split; [auto|]. intro j. unfold cb_events.
-            rewrite !proj_app, (PL _ _ _ j P), (proj_stop _ _ _ _ Hst), !(proj_cbs_other KShutdown j KRestart), !(proj_cbs_other KShutdown j KRestartFailed) by reflexivity.
-            simpl. rewrite app_nil_r. destruct (j =? h) eqn:Ej.
-            + apply Nat.eqb_eq in Ej. subst j. apply proj_cbs_same.
-            + apply proj_cbs_other. simpl. exact Ej.
-          - exists (labels (c_shutdown (i_cfg o))). split; [auto|]. intro j. unfold cb_events.
-            rewrite !proj_app, (PL _ _ _ j P), (proj_stop _ _ _ _ Hst), !(proj_cbs_other KShutdown j KRestart) by reflexivity.
-            simpl. rewrite app_nil_r. destruct (j =? h) eqn:Ej.
-            + apply Nat.eqb_eq in Ej. subst j. apply proj_cbs_same.
-            + apply proj_cbs_other. simpl. exact Ej. }
-        destruct PE as [q [Hq PE]]. destruct SD as [S1 S2 S3']. pose proof (not_in_ids_next s G) as Hn.
+        assert (PE : forall j, proj KShutdown j e1 = if j =? h then labels (c_shutdown (i_cfg o)) else []).
+        { destruct E as [_ ->]. intro j. unfold cb_events.
+          rewrite !proj_app, (PL _ _ _ j P), (proj_stop _ _ _ _ Hst), !(proj_cbs_other KShutdown j KRestart) by reflexivity.
+          simpl. rewrite app_nil_r. destruct (j =? h) eqn:Ej.
+          + apply Nat.eqb_eq in Ej. subst j. apply proj_cbs_same.
+          + apply proj_cbs_other. simpl. exact Ej. }
+        destruct SD as [S1 S2 S3']. pose proof (not_in_ids_next s G) as Hn.
         constructor; simpl.
         -- rewrite B. intros x Hx. rewrite proj_app, PE. apply in_app_or in Hx as [Hx|[<-|[]]].
            ++ destruct (i_id x =? h) eqn:Ex.
               ** apply Nat.eqb_eq in Ex. assert (x = o).
                  { pose proof (find_unique _ _ (g_nodup _ G) Hx) as F2. rewrite Ex, F in F2. injection F2 as ->. reflexivity. }
-                 subst x. rewrite (S2 To o Holive). simpl. destruct Hq as [->| ->]; [right; left|right; right]; reflexivity.
+                 subst x. rewrite (S2 To o Holive). simpl. right. reflexivity.
               ** rewrite app_nil_r. auto.
            ++ simpl. destruct (next s =? h) eqn:Ex; [apply Nat.eqb_eq in Ex; lia|]. rewrite app_nil_r. left. apply S3'. exact Hn.
         -- rewrite D, A. intros _ x Hx.
@@ -1627,7 +1597,7 @@ Proof.
       rewrite proj_app. simpl (proj KShutdown (i_id x) [EHook HShutdown 0]). simpl.
       destruct (in_dec Nat.eq_dec (i_id x) (ids (insts s))) as [L|L].
       * pose proof (known_live s x G Hx L) as Hl. rewrite (S2 O x Hl). simpl.
-        rewrite (proj_all_shutdown _ _ (g_nodup_l _ G) Hl). right. right. reflexivity.
+        rewrite (proj_all_shutdown _ _ (g_nodup_l _ G) Hl). right. reflexivity.
       * rewrite (proj_all_shutdown_none _ _ L), app_nil_r. auto.
     + discriminate.
     + intros j Hj. rewrite proj_app. change (EHook HShutdown 0 :: all_shutdown (insts s)) with ([EHook HShutdown 0] ++ all_shutdown (insts s)).
@@ -1988,13 +1958,12 @@ Proof.
         rewrite serving_of_app, (plan_trace _ _ _ _ _ _ _ _ _ Sh). cbv iota.
         apply serving_of_quiet. apply quiet_cbs.
       * apply stop_inst_trace in S3. rewrite commit_serving in S3. simpl in S3.
-        destruct E as [[_ [_ ->]] | [_ [_ ->]]];
+        destruct E as [_ ->];
           rewrite serving_of_app, (serving_of_quiet _ _ (quiet_cbs _ _ _));
           rewrite serving_of_app, (plan_trace _ _ _ _ _ _ _ _ _ Sh); cbv iota;
           rewrite serving_of_app, S3;
           apply serving_of_quiet.
-        -- apply quiet_app; apply quiet_cbs.
-        -- apply quiet_app; [apply quiet_cbs|reflexivity].
+        apply quiet_app; [apply quiet_cbs|reflexivity].
   - destruct (find_inst h (known s)) as [x|]; [|injection H as <- <- <-; reflexivity].
     destruct (stop_inst x s) as [s2 e2] eqn:E. injection H as <- <- <-. eapply stop_inst_trace; eauto.
   - destruct (stop_all (insts s) s) as [s2 e2] eqn:E. injection H as <- <- <-. eapply stop_all_trace; eauto.
